@@ -67,6 +67,12 @@ def do_replay(prop, path):
     elif rp.get("kind") == "eblif_compose":
         from vf.e1.compose_jobs import replay_eblif_compose
         viol, txt = replay_eblif_compose(rp)
+    elif rp.get("kind") == "selection":
+        from vf.e1.hier_jobs import replay_selection
+        viol, txt = replay_selection(rp)
+    elif rp.get("kind") == "hpins":
+        from vf.e1.hier_jobs import replay_hpins
+        viol, txt = replay_hpins(rp)
     elif rp.get("kind") == "uniquify":
         from vf.e1.flatten_jobs import replay_uniquify
         viol, txt = replay_uniquify(rp)
